@@ -38,7 +38,7 @@ def run(run):
     with open(p, "w") as f:
         f.write("SPECIFICATION GenSpec\nCHECK_DEADLOCK FALSE\nCONSTANTS\n" + "".join("  %s = %d\n" % kv for kv in k.items()))
     cp = os.path.join(out, "cases.ndjson")
-    ncases = run.gen("gen", SPEC, "SimplifyGen", p, cp, workers=1, timeout=3000)
+    ncases = run.gen("gen", SPEC, "SimplifyGen", p, cp, workers=1, timeout=3000, require=["line", "poly", "multi", "sh="])
     tr1 = os.path.join(out, "trace_replay.ndjson")
     run.drive(["c13", "replay", cp, tr1], timeout=3000)
     nrand = 5000 if quick else 40000
